@@ -230,8 +230,9 @@ func (n *Concat) compute() {
 		return
 	}
 
+	// A concatenation is nullable if and only if all of its operands are nullable.
 	n.comp = &computed{
-		nullable: false,
+		nullable: true,
 		firstPos: Poses{},
 		lastPos:  Poses{},
 	}
